@@ -1028,6 +1028,10 @@ class AtLeast(puan.Proposition):
         if not self.generated_id:
             d['id'] = self.id
 
+        # sign is given by value unless it was explicitly set to something else
+        if self.sign != (puan.Sign.POSITIVE if self.value > 0 else puan.Sign.NEGATIVE):
+            d['sign'] = int(self.sign)
+
         return d
 
     def to_b64(self, str_decoding: str = 'utf8') -> str:
@@ -1082,7 +1086,8 @@ class AtLeast(puan.Proposition):
         return AtLeast(
             value=data.get('value', 1),
             propositions=list(map(functools.partial(from_json, class_map=class_map), propositions)),
-            variable=data.get('id', None)
+            variable=data.get('id', None),
+            sign=data.get('sign', None),
         )
 
     @staticmethod
